@@ -70,6 +70,8 @@ type AssertResult struct {
 	Decs    []int
 }
 
+var forkStats = os.Getenv("GOSYM_FORKSTATS") != ""
+
 var nameSan = regexp.MustCompile(`[^A-Za-z0-9_.]`)
 
 func (c *Ctx) freshName(tag string) string {
@@ -154,6 +156,12 @@ func refineFromCond(t *Term, positive bool) {
 			case t.Op == OpEq && positive:
 				setLo(a, b.Val)
 				setHi(a, b.Val)
+			case t.Op == OpEq && !positive:
+				if a.Lo != nil && a.Lo.Cmp(b.Val) == 0 {
+					a.Lo = new(big.Int).Add(b.Val, one)
+				} else if a.Hi != nil && a.Hi.Cmp(b.Val) == 0 {
+					a.Hi = new(big.Int).Sub(b.Val, one)
+				}
 			case t.Op == OpLt && positive:
 				setHi(a, new(big.Int).Sub(b.Val, one))
 			case t.Op == OpLt && !positive:
@@ -308,6 +316,17 @@ func (c *Ctx) decide(conds []*Term, pos token.Pos) int {
 	}
 	if chosen < 0 {
 		panic(pathAbort{"infeasible", "no feasible alternative at " + c.posStr(pos)})
+	}
+	if forkStats {
+		nf := 0
+		for i := range conds {
+			if known[i] == 1 {
+				nf++
+			}
+		}
+		if nf > 1 {
+			c.notes = append(c.notes, fmt.Sprintf("fork x%d at %s", nf, c.posStr(pos)))
+		}
 	}
 	c.taken = append(c.taken, chosen)
 	c.addPC(conds[chosen])
